@@ -15,6 +15,18 @@ use std::sync::atomic::{AtomicBool, AtomicU64, Ordering};
 use std::sync::{Arc, Mutex};
 use std::time::{Duration, Instant};
 
+/// VERIF_SEED (default 0), for checks that derive their own seeds.
+pub fn verif_seed() -> u64 {
+    static S: std::sync::OnceLock<u64> = std::sync::OnceLock::new();
+    *S.get_or_init(|| {
+        std::env::var("VERIF_SEED")
+            .ok()
+            .and_then(|s| s.parse::<i64>().ok())
+            .map(|v| v as u64)
+            .unwrap_or(0)
+    })
+}
+
 #[derive(Clone, Copy, Debug, PartialEq, Eq)]
 pub enum Tier {
     Quick,
@@ -44,8 +56,13 @@ pub struct Ctx {
     /// (signature, detail): each is either a known finding (by signature) or a violation
     pub problems: Vec<(String, String)>,
     pub panicked: bool,
+    /// numeric counters summed over all cases (e.g. states / transitions explored)
+    pub counters: Vec<(String, u64)>,
 }
 impl Ctx {
+    pub fn count(&mut self, k: impl Into<String>, n: u64) {
+        self.counters.push((k.into(), n));
+    }
     pub fn label(&mut self, s: impl Into<String>) {
         self.labels.push(s.into());
     }
@@ -159,6 +176,7 @@ pub struct PartReport {
     pub labels: BTreeMap<String, u64>,
     pub discards: BTreeMap<String, u64>,
     pub known_hits: BTreeMap<String, u64>,
+    pub counters: BTreeMap<String, u64>,
     pub panicked_cases: u64,
     pub samples: Vec<Value>,
     /// (replay path, signature, detail)
@@ -190,6 +208,7 @@ struct Agg {
     samples_tr: Vec<Value>,
     infra: Vec<String>,
     explore: BTreeMap<String, (u64, String, String)>,
+    counters: BTreeMap<String, u64>,
 }
 
 /// Outcome of evaluating one case.
@@ -237,6 +256,9 @@ fn eval_case<P: Prop>(
         for l in &ctx.labels {
             *local.labels.entry(l.clone()).or_insert(0) += 1;
         }
+        for (k, n) in &ctx.counters {
+            *local.counters.entry(k.clone()).or_insert(0) += n;
+        }
         if ctx.nontrivial && ctx.discard.is_none() {
             local.nontrivial.insert(hash_str(json));
             if local.samples_nt.len() < 2 {
@@ -279,6 +301,9 @@ fn merge(into: &mut Agg, from: Agg) {
         }
     }
     into.infra.extend(from.infra);
+    for (k, v) in from.counters {
+        *into.counters.entry(k).or_insert(0) += v;
+    }
     for (k, v) in from.explore {
         let e = into.explore.entry(k).or_insert((0, v.1.clone(), v.2.clone()));
         e.0 += v.0;
@@ -518,6 +543,7 @@ pub fn run_part<P: Prop>(opts: &Opts) -> PartReport {
     report.labels = agg.labels;
     report.discards = agg.discards;
     report.known_hits = agg.known_hits;
+    report.counters = agg.counters;
     report.panicked_cases = agg.panicked;
     report.samples = agg.samples_nt;
     report.samples.extend(agg.samples_tr);
@@ -592,6 +618,7 @@ pub fn finish(
     let mut nontrivial: HashSet<(usize, u64)> = HashSet::new();
     let mut samples = Vec::new();
     let mut labels = serde_json::Map::new();
+    let mut counters = serde_json::Map::new();
     let mut discards = serde_json::Map::new();
     let mut known_hits: BTreeMap<String, u64> = BTreeMap::new();
     let mut panicked = 0;
@@ -609,6 +636,9 @@ pub fn finish(
             samples.push(json!({"part": p.part, "case": s}));
         }
         labels.insert(p.part.clone(), json!(p.labels));
+        if !p.counters.is_empty() {
+            counters.insert(p.part.clone(), json!(p.counters));
+        }
         if !p.discards.is_empty() {
             discards.insert(p.part.clone(), json!(p.discards));
         }
@@ -656,6 +686,7 @@ pub fn finish(
         "rule": rules.join(" || "),
         "samples": samples,
         "labels": labels,
+        "counters": counters,
         "discards": discards,
         "known_hits": known_hits,
         "panicked_cases": panicked,
